@@ -75,11 +75,12 @@ TablesOK(t) == FailingPreds(t) = {}
 CONSTANTS NFn,            \* sequence: number of functions of each object
           Statuses,       \* set of statuses to choose from
           AddrPerms,      \* set of sequences: candidate address orders over all functions
-          Variant         \* "wild" | "keep-unloaded" | "keep-empty" | "no-sort" | "lose-row" | "stale-cie"
+          Variant         \* "wild" | "keep-unloaded" | "keep-empty" | "no-sort" | "lose-row" | "cie-not-rewritten"
 
 NObj == Len(NFn)
-FnBase(o) == IF o = 1 THEN 0 ELSE FnBaseRec[o]
-FnId(o, j) == (LET RECURSIVE S(_) S(k) == IF k = 0 THEN 0 ELSE NFn[k] + S(k - 1) IN S(o - 1)) + j
+RECURSIVE FnsBefore(_)
+FnsBefore(ob) == IF ob <= 1 THEN 0 ELSE NFn[ob - 1] + FnsBefore(ob - 1)
+FnId(ob, j) == FnsBefore(ob) + j
 NTotal == FnId(NObj, NFn[NObj])
 AllFns == 1..NTotal
 FnLen == 4
@@ -121,7 +122,7 @@ Lookup(m, k) == LET hits == {n \in 1..Len(m) : m[n][1] = k} IN
 KeepCie ==
     /\ pc = "walk" /\ Cur.kind = "cie"
     /\ out' = Append(out, [kind |-> "cie", fn |-> 0, cie |-> 0])
-    /\ cieMap' = (IF i = 1 /\ Variant # "stale-cie" THEN <<>> ELSE cieMap) \o <<<<i, Len(out) + 1>>>>
+    /\ cieMap' = (IF i = 1 THEN <<>> ELSE cieMap) \o <<<<i, Len(out) + 1>>>>
     /\ Advance
     /\ UNCHANGED <<status, cieMode, addrOf, rows>>
 
@@ -133,7 +134,7 @@ ShouldKeep(fn) ==
 KeepFde ==
     /\ pc = "walk" /\ Cur.kind = "fde" /\ ShouldKeep(Cur.fn)
     /\ out' = Append(out, [kind |-> "fde", fn |-> Cur.fn,
-                           cie |-> IF Variant = "stale-cie" THEN Lookup(cieMap, 1) ELSE Lookup(cieMap, Cur.cie)])
+                           cie |-> IF Variant = "cie-not-rewritten" THEN Cur.cie ELSE Lookup(cieMap, Cur.cie)])
     /\ rows' = IF Variant = "lose-row" /\ Len(rows) = 1 THEN rows
                ELSE Append(rows, [pc |-> addrOf[Cur.fn], fde |-> Len(out) + 1])
     /\ Advance
